@@ -4,6 +4,7 @@ package bubble
 
 import (
 	"fmt"
+	"runtime"
 	"runtime/debug"
 	"strings"
 	"testing"
@@ -16,6 +17,8 @@ type Result struct {
 	Panic    any    // panic recovered from the root goroutine
 	Stack    string // stack of that panic
 	Msg      string
+	// Goroutines lists the stacks of the goroutines left blocked in the bubble (hang / leak diagnosis).
+	Goroutines string
 }
 
 func (r Result) OK() bool { return !r.Deadlock && !r.Leak && r.Panic == nil }
@@ -23,9 +26,9 @@ func (r Result) OK() bool { return !r.Deadlock && !r.Leak && r.Panic == nil }
 func (r Result) String() string {
 	switch {
 	case r.Deadlock:
-		return "deadlock: " + r.Msg
+		return "deadlock: " + r.Msg + "\n" + r.Goroutines
 	case r.Leak:
-		return "leak: " + r.Msg
+		return "leak: " + r.Msg + "\n" + r.Goroutines
 	case r.Panic != nil:
 		return fmt.Sprintf("panic: %v\n%s", r.Panic, r.Stack)
 	}
@@ -49,6 +52,7 @@ func Run(t *testing.T, root func()) (r Result) {
 				panic(p)
 			}
 			r.Msg = s
+			r.Goroutines = bubbleGoroutines()
 		}
 	}()
 	synctest.Test(t, func(*testing.T) {
@@ -64,6 +68,29 @@ func Run(t *testing.T, root func()) (r Result) {
 		root()
 	})
 	return r
+}
+
+// bubbleGoroutines returns the stacks of goroutines that belong to a synctest bubble and are
+// blocked (the ones of earlier, already reported bubbles included), trimmed to the top frames.
+func bubbleGoroutines() string {
+	buf := make([]byte, 1<<20)
+	buf = buf[:runtime.Stack(buf, true)]
+	var out []string
+	for _, g := range strings.Split(string(buf), "\n\n") {
+		head, _, _ := strings.Cut(g, "\n")
+		if !strings.Contains(head, "synctest bubble") || strings.Contains(g, "verifkit/fakeredis.(*Conn)") {
+			continue
+		}
+		lines := strings.Split(g, "\n")
+		if len(lines) > 9 {
+			lines = lines[:9]
+		}
+		out = append(out, strings.Join(lines, "\n"))
+		if len(out) >= 12 {
+			break
+		}
+	}
+	return strings.Join(out, "\n\n")
 }
 
 // Wait blocks until every other goroutine of the bubble is durably blocked.
